@@ -501,7 +501,11 @@ func TestVerif_C38(t *testing.T) {
 		"'connection error' includes the error of a connection that cannot be configured (no TLS server name derivable), decided by the harness's own reference with net.SplitHostPort as authority",
 		"in configurations without TLS configuration the worker's immediate-retry loop only yields inside Logger.Printf (modelled as 10 ms of virtual time); with a Logger that returns at once the loop is a spin (reported as an observation, not judged by this property)")
 	var scs []mcx.Scenario
-	add := func(name string, qb, tb int, cfg c38cfg) {
+	// Scenarios are dealt to the worker processes round-robin in list order and each worker has one time budget, so the order is
+	// cost order: the cheap (bound 0) connection-death scenarios first, the older scenarios next, the bound-1 connection-death
+	// scenarios last.
+	var scsFirst, scsLast []mcx.Scenario
+	addTo := func(list *[]mcx.Scenario, name string, qb, tb int, cfg c38cfg) {
 		if f := os.Getenv("VERIF_SCENARIO"); f != "" && !strings.Contains(name, f) {
 			return
 		}
@@ -509,8 +513,9 @@ func TestVerif_C38(t *testing.T) {
 		if ob := os.Getenv("VERIF_BOUND"); ob != "" {
 			fmt.Sscan(ob, &bound)
 		}
-		scs = append(scs, mcx.Scenario{Name: name, Cfg: mcrt.Config{Bound: bound, TimerFirst: true, Horizon: 8000}, Body: c38wrap(cfg), Check: c38check(cfg)})
+		*list = append(*list, mcx.Scenario{Name: name, Cfg: mcrt.Config{Bound: bound, TimerFirst: true, Horizon: 8000}, Body: c38wrap(cfg), Check: c38check(cfg)})
 	}
+	add := func(name string, qb, tb int, cfg c38cfg) { addTo(&scs, name, qb, tb, cfg) }
 	sec := time.Second
 	ms := time.Millisecond
 	// callers start 1 ms apart unless sim: by default a caller starts when the system has quiesced, timer-first deviations
@@ -637,13 +642,13 @@ func TestVerif_C38(t *testing.T) {
 						// tiers (deviation bound 0 = every order of the threads that are runnable whenever the running thread blocks, which is where the
 						// threads woken by the death, the new connection's reader/writer and F interleave): quick = |W| <= 2, and |W| = 3 for k = 3;
 						// thorough = |W| <= 3. Bound 1 for MaxPendingRequests 2, k = 3: quick = W = {C} (the only waiting call is the last one in the
-						// reader's queue at the death), thorough = |W| = 1, and |W| = 2 with F from a new thread.
+						// reader's queue at the death), thorough = W = {B}, {C}, and with F from a new thread also {A} and |W| = 2.
 						if nw > 3 || (nw == 3 && k > 3 && !r.Thorough()) {
 							continue
 						}
 						qb, tb := 0, 0
 						if mp == 2 && k == 3 {
-							if nw == 1 {
+							if nw == 1 && (wait != "A" || follow == "new-thread") {
 								tb = 1
 								if wait == "C" {
 									qb = 1
@@ -686,7 +691,11 @@ func TestVerif_C38(t *testing.T) {
 							f.after = 600 * ms
 							cfg.calls = append(cfg.calls, []c38call{f})
 						}
-						add(fmt.Sprintf("dies/%s/mp%d/k%d/wait=%s/%s", mode, mp, k, wait, follow), qb, tb, cfg)
+						list := &scsFirst
+						if vrt.Pick(r, qb, tb) > 0 {
+							list = &scsLast
+						}
+						addTo(list, fmt.Sprintf("dies/%s/mp%d/k%d/wait=%s/%s", mode, mp, k, wait, follow), qb, tb, cfg)
 						nDeath++
 					}
 				}
@@ -698,5 +707,5 @@ func TestVerif_C38(t *testing.T) {
 	}
 	add("tls/nocfg/hostport/answer-races-deadline", 1, 2, c38cfg{maxPending: 1, isTLS: true, addr: "h:443", calls: mk(false, cl("A", D, sec), cl("B", T, sec)), beh: map[string]c04beh{"A": {stall: sec}, "B": {}}})
 	add("tls/nocfg/hostport/answer/sim", 0, 1, c38cfg{maxPending: 2, isTLS: true, addr: "h:443", calls: mk(true, cl("A", D, sec), cl("B", T, sec)), beh: map[string]c04beh{"A": {}, "B": {}}})
-	mcx.Run(r, scs)
+	mcx.Run(r, append(append(scsFirst, scs...), scsLast...))
 }
